@@ -299,6 +299,8 @@ class ExprMixin:
             return self.default_of(shape)  # the untyped literal [] as the empty list of the declared element shape
         if k == "dict" and type(v).__name__ == "VEmptyDict":
             return self.empty_of(shape, v)  # the literal {} as the empty dict of the declared shape
+        if k == "set" and type(v).__name__ == "VEmptySet":
+            return self.default_of(shape)  # set() as the empty set of the declared element shape
         return v
 
     def default_of(self, shape):
@@ -1159,6 +1161,8 @@ class ExprMixin:
             if it.order is None:
                 raise Unsupported("iteration over a dict of unknown insertion order")
             it = it.order
+        if isinstance(it, VRange):
+            it = self.bi_list([it], {}, node, st)  # {.. for x in range(a, b)}: the same as over the list a, a+1, .., b-1
         if not isinstance(it, VList) or it.elems is None:
             raise Unsupported(f"dict comprehension over {type(it).__name__}")
         n = to_z3(it.length)
